@@ -477,6 +477,12 @@ func CheckC15(env *core.Env, rep *core.Report) *core.Result {
 				[]byte("a: &a [*a]\ntasks: *a\n"), // self-referential anchor
 				[]byte("base: &b\n  command: [\"true\"]\ntasks:\n  t:\n    <<: *b\n  u: *b\npipelines:\n  p:\n    - task: t\n"),
 				[]byte("x: &x {y: *x}\n"),
+				// a stage naming a task AND its own pipeline; mutual variant
+				[]byte("tasks:\n  t:\n    command: [\"true\"]\npipelines:\n  entry:\n    - task: t\n      pipeline: entry\n"),
+				[]byte("tasks:\n  t:\n    command: [\"true\"]\npipelines:\n  entry:\n    - task: t\n      pipeline: b\n  b:\n    - task: t\n      pipeline: entry\n"),
+				// imports of mixed formats in both orders
+				[]byte("import: [\"i1.json\", \"i2.yaml\"]\ntasks:\n  t:\n    command: [\"true\"]\n"),
+				[]byte("import: [\"i2.yaml\", \"i1.toml\", \"i3.yaml\"]\ntasks:\n  t:\n    command: [\"true\"]\n"),
 				[]byte("import: [\".\"]\ntasks:\n  t:\n    command: [\"true\"]\n"), // the file's own directory
 				[]byte("import: [\"../\" ]\ntasks:\n  t:\n    command: [\"true\"]\n"),
 				[]byte("import: [\"cfg.yaml\", \".\", \".\"]\ntasks:\n  t:\n    command: [\"true\"]\n"),
@@ -488,7 +494,11 @@ func CheckC15(env *core.Env, rep *core.Report) *core.Result {
 			dd := env.Sub("bv")
 			f := filepath.Join(dd, "cfg."+format)
 			_ = ioutil.WriteFile(f, variants[i], 0o644)
-			for _, args := range [][]string{{"-c", f, "list"}, {"-c", f, "validate", f}} {
+			_ = ioutil.WriteFile(filepath.Join(dd, "i1.json"), []byte(`{"tasks":{"j1":{"command":["true"],"env":{"A":"1"}}}}`), 0o644)
+			_ = ioutil.WriteFile(filepath.Join(dd, "i1.toml"), []byte("[tasks.m1]\ncommand = [\"true\"]\n[tasks.m1.env]\nA = \"1\"\n"), 0o644)
+			_ = ioutil.WriteFile(filepath.Join(dd, "i2.yaml"), []byte("tasks:\n  y2:\n    command: [\"true\"]\n    env:\n      B: \"2\"\n"), 0o644)
+			_ = ioutil.WriteFile(filepath.Join(dd, "i3.yaml"), []byte("tasks:\n  y3:\n    command: [\"true\"]\n    env:\n      C: \"3\"\n"), 0o644)
+			for _, args := range [][]string{{"-c", f, "list"}, {"-c", f, "validate", f}, {"-c", f, "graph", "entry"}, {"-c", f, "show", "t"}} {
 				res := e.run(dd, "", 10*time.Second, args...)
 				atomic.AddInt64(&byteRuns, 1)
 				if !judge(fmt.Sprintf("bytes:%s:%d", format, i), res, fmt.Sprintf("byte-level variant %d of the %s base document", i, format), map[string]interface{}{"format": format, "variant": i, "document": clipS(string(variants[i]), 600), "stderr": tailS(res.Stderr, 1200)}) {
